@@ -47,6 +47,8 @@ REQUIRED_BUCKETS = [
     "hanging-member-removed", "rm-not-contained", "gen-after-remove", "readd-checked-on-copy", "size>=6", "add-frame-checked", "lanelets-of-an-incoming-all-removed",
 ]
 WORKERS = {"quick": 1, "thorough": 8}
+# translator tie: Gen.SrcC09 (regenerated from the working tree's scenario.py on every run by harness/translate/src_c09.py) = hand model
+EXTRA_MODULES = ["CRProps.T09"]
 
 OBST = ("static", "dynamic", "env", "phantom")
 NETKINDS = ("lanelet", "sign", "light", "inter")
